@@ -436,6 +436,9 @@ func flowScenario(p flowParams) verifkit.Scenario {
 					}
 					err := st.LC.Wait(time.Minute)
 					x.W.Log("ctl", "waitall.ret", -1, errStr(err))
+					// the runtime's shutdown sequence goes on with the persister (then closes the store)
+					st.Persister.Wait()
+					x.W.Log("ctl", "persisterwait.ret", -1, "nil")
 				}})
 			case "force":
 				x.AddControl(&verifkit.Control{Name: "force", AfterPrevReturned: true, Do: func() {
